@@ -11,9 +11,11 @@
    with a crash right after commit k1, a restart, a crash k2 commits later, ...;
    [finish] = the announcement of the node's tip is processed ("after catching up").
    Environment assumptions: [wf_history_gen] of Ledger/WF.v, as for C01.
-   [crashes_safe] excludes two kinds of crash points from the general theorems: those at which
-   Start takes the fast-forward branch, and those at which the node has been reorganised back to
-   its bare genesis while the wallet is ahead of it (see the report). *)
+   [crashes_safe] ([safe_point] at every crash point) excludes two kinds of crash points from the
+   general theorems: those at which Start takes the fast-forward branch although the node was
+   reorganised below the stored tip (no wallet ready, node more than ff blocks long: the code then
+   writes sync records on top of an abandoned tip), and those at which the node has been
+   reorganised back to its bare genesis while the wallet is ahead of it (see the report). *)
 From Coq Require Import List ZArith NArith Bool.
 Import ListNotations.
 Open Scope Z_scope.
@@ -64,11 +66,24 @@ Theorem C06_crash_equiv : forall p tipfix ff g h bt ks,
 Proof. exact crash_equiv. Qed.
 Print Assumptions C06_crash_equiv.
 
-(* the worker's queue rebuilt from the status records holds exactly the wallets whose import or
-   removal is unfinished *)
-Theorem C06_tasks_resumed_partial : forall t w, In w (t_queue (treopen t)) <-> In w (unfinished (t_status t)).
-Proof. exact treopen_queue. Qed.
+(* T5 "resumes unfinished background work": along every run of the task layer (wallets created,
+   restored, removed, the worker taking steps that finish a task or not) the queue the restart
+   rebuilds from the status records has exactly the members of the queue the crash lost.
+   Partial in one respect: the STEPS of a restore / removal (what one batch does to the ledger)
+   are C07's / C08's models; their resumability is covered here by the crash-point enumeration *)
+Theorem C06_tasks_resumed_partial : forall es,
+  tfresh_all {| t_status := []; t_queue := [] |} es ->
+  let t := trun {| t_status := []; t_queue := [] |} es in
+  forall w, In w (t_queue (treopen t)) <-> In w (t_queue t).
+Proof. exact tasks_resumed. Qed.
 Print Assumptions C06_tasks_resumed_partial.
+
+Example C06_tasks_example :
+  let es := [TCreate 1; TImport 2; TRemove 1; TStep false; TStep true; TImport 3]%N in
+  tfresh_all {| t_status := []; t_queue := [] |} es /\
+  t_queue (trun {| t_status := []; t_queue := [] |} es) = [2; 3]%N /\
+  t_queue (treopen (trun {| t_status := []; t_queue := [] |} es)) = [2; 3]%N.
+Proof. cbv zeta. split; [cbn; repeat split; intros H; repeat (destruct H as [H|H]; [discriminate|]); exact H|split; vm_compute; reflexivity]. Qed.
 
 (* ---------------------------------------------------------------- the code as found *)
 
@@ -99,7 +114,7 @@ Theorem C06_restart_stale_tip_refuted :
 Proof.
   split; [apply wf_history_gen_b_sound; vm_compute; reflexivity|].
   cbv zeta. split.
-  - split; [vm_compute; reflexivity|left; vm_compute; discriminate].
+  - split; [left; vm_compute; reflexivity|left; vm_compute; discriminate].
   - eexists. split; [vm_compute; reflexivity|]. split; [vm_compute; discriminate|split; vm_compute; reflexivity].
 Qed.
 Print Assumptions C06_restart_stale_tip_refuted.
@@ -127,7 +142,7 @@ Example C06_hypotheses_met :
 Proof.
   split; [apply wf_history_gen_b_sound; vm_compute; reflexivity|].
   split; [vm_compute; reflexivity|]. split; [|split; vm_compute; reflexivity].
-  cbn [crashes_safe]. vm_compute. repeat split; try reflexivity; left; discriminate.
+  cbn [crashes_safe]. vm_compute. repeat split; try reflexivity; left; first [reflexivity|discriminate].
 Qed.
 
 Example C06_example_reports :
@@ -137,3 +152,26 @@ Example C06_example_reports :
   | None => False
   end.
 Proof. vm_compute. split; reflexivity. Qed.
+
+(* the fast-forward branch of Start (no wallet ready, node more than ff blocks long; here ff = 0 so
+   that three blocks suffice): the crash point is covered through [on_chain]; Start writes the sync
+   record of height 2 without touching the ledger, processes block 3, and the result is the state
+   of the run that never stopped *)
+Definition blk3c : block := {| b_id := 13; b_prev := 12; b_height := 3;
+  b_txs := [ {| t_id := 13; t_cb := true; t_ins := []; t_outs := [] |} ] |}.
+Definition h_ff : list event := [EvAttach blk1c; EvAttach blk2c; EvAttach blk3c; EvProcess blk1c].
+
+Example C06_fast_forward_example :
+  wf_history_gen p0 true g0 (h_ff ++ [EvProcess blk3c]) /\
+  crashes_safe p0 true 0 g0 [1%nat] (init_proc g0) h_ff /\
+  (let pr1 := fst (fst (cut p0 1 (init_proc g0) h_ff)) in
+   no_ready_wallet pr1 && (0 <? chain_height (s_node (pr_sim pr1))) = true) /\
+  option_map (fun pr => finish p0 g0 pr) (crashes p0 true 0 g0 [1%nat] (init_proc g0) h_ff)
+  = Some (finish p0 g0 (prun p0 (init_proc g0) h_ff)).
+Proof.
+  split; [apply wf_history_gen_b_sound; vm_compute; reflexivity|].
+  split; [|split; vm_compute; reflexivity].
+  cbn [crashes_safe]. vm_compute. split; [split|exact I].
+  - right. split; [discriminate|]. exists [g0; blk1c], [blk2c; blk3c]. split; [discriminate|split; reflexivity].
+  - left. discriminate.
+Qed.
